@@ -106,6 +106,9 @@ func genTok(r *Rng, o GenOpts, term string, compNames []string) Tok {
 				for j := 0; j < n; j++ {
 					l.AP = append(l.AP, uint64(r.Intn(5)))
 				}
+				if r.Chance(6) { // array positions whose varint needs more than one byte
+					l.AP[r.Intn(len(l.AP))] = []uint64{127, 128, 129, 300, 16384}[r.Intn(5)]
+				}
 			}
 			if len(compNames) > 0 && r.Intn(4) != 0 {
 				// an occurrence taken from a source field; otherwise the composite field's own occurrence
@@ -123,6 +126,9 @@ func genField(r *Rng, o GenOpts, fi int) Field {
 	if r.Bool() {
 		f.Stored = true
 		n := r.Intn(6)
+		if r.Chance(8) {
+			n = []int{100, 126, 127, 128, 129, 200, 300}[r.Intn(7)] // stored records around the 1-byte / 2-byte length prefixes
+		}
 		if o.BigVals && r.Chance(10) {
 			n = 66000 + r.Intn(9000)
 		}
@@ -384,7 +390,7 @@ func (b Batch) Stats() BatchStats {
 var SharedThesNames = true
 
 var ThesNames = []string{"syn1", "syn2", "thesaurus"}
-var SynVocab = []string{"happy", "glad", "joyful", "big", "large", "huge", "b", "B", "cat", "日本", "x"} // "B"/"b": case twins, adjacent in byte order
+var SynVocab = []string{"happy", "glad", "joyful", "big", "large", "huge", "b", "B", "cat", "日本", "x", "tzdeoeb", "xfbinkd"} // the last two have the same CRC-32 // "B"/"b": case twins, adjacent in byte order
 
 // AddSynDocs mixes synonym documents into a batch (W6: >= 1 synonym per definition, non-empty strings;
 // a thesaurus may be named like an ordinary field, see SharedThesNames).
